@@ -130,7 +130,6 @@ structure St where
   numDims : Option Nat := none
   inst : List (List Series) := []
   labels : List Str := []
-  lineNum : Nat := 0
   deriving DecidableEq, Repr
 
 def kwProblemName : Str := "@problemname".toList
@@ -145,14 +144,20 @@ def sFalse : Str := "false".toList
 def parseBoolTok (t : Str) : Option Bool :=
   if t = sTrue then some true else if t = sFalse then some false else none
 
+/-- `float(t)`; `ValueError` when `t` is not a number -/
+def floatE (t : Str) : Except Err Num :=
+  match floatOf t with
+  | some v => .ok v
+  | none => .error .value
+
+/-- `[float(i) for i in toks]` -/
+def floats (toks : List Str) : Except Err Series := toks.mapM floatE
+
 /-- one dimension of a case line: `dimension.strip()`, empty → empty series, else
 `[float(i) for i in dimension.split(",")]` -/
 def seriesOf (seg : Str) : Except Err Series :=
   let d := strip seg
-  if d = [] then .ok []
-  else (splitOn ',' d).mapM (fun t => match floatOf t with
-    | some v => .ok v
-    | none => .error .value)
+  if d = [] then .ok [] else floats (splitOn ',' d)
 
 /-- append one series to each per-dimension list (`instance_list[dim].append(...)`) -/
 def appendRow : List (List Series) → List Series → List (List Series)
@@ -180,41 +185,39 @@ def dataLine (st : St) (line0 : Str) : Except Err St :=
 
 /-- one iteration of the line loop on the normalised line (`line.strip().lower()`) -/
 def step (st : St) (line : Str) : Except Err St :=
-  if line = [] then .ok { st with lineNum := st.lineNum + 1 }
+  if line = [] then .ok st
   else
     let toks := splitOn ' ' line
-    let r : Except Err St :=
-      if startsWith kwProblemName line then
-        if st.dataStarted then .error .parse
-        else if toks.length = 1 then .error .parse
-        else .ok { st with hasPN := true, metaStarted := true }
-      else if startsWith kwTimestamps line then
-        if st.dataStarted then .error .parse
-        else if toks.length ≠ 2 then .error .parse
-        else match parseBoolTok (toks.getD 1 []) with
-          | some b => .ok { st with timestamps := b, hasTS := true, metaStarted := true }
-          | none => .error .parse
-      else if startsWith kwUnivariate line then
-        if st.dataStarted then .error .parse
-        else if toks.length ≠ 2 then .error .parse
-        else match parseBoolTok (toks.getD 1 []) with
-          | some _ => .ok { st with hasUni := true, metaStarted := true }
-          | none => .error .parse
-      else if startsWith kwClassLabel line then
-        if st.dataStarted then .error .parse
-        else if toks.length = 1 then .error .parse
-        else match parseBoolTok (toks.getD 1 []) with
-          | some b =>
-            if toks.length = 2 ∧ b then .error .parse
-            else .ok { st with classLabels := b, hasCL := true, metaStarted := true }
-          | none => .error .parse
-      else if startsWith kwData line then
-        if line ≠ kwData then .error .parse
-        else if st.dataStarted ∧ !st.metaStarted then .error .parse
-        else .ok { st with hasData := true, dataStarted := true }
-      else if st.dataStarted then dataLine st line
-      else .ok st
-    r.map (fun s => { s with lineNum := s.lineNum + 1 })
+    if startsWith kwProblemName line then
+      if st.dataStarted then .error .parse
+      else if toks.length = 1 then .error .parse
+      else .ok { st with hasPN := true, metaStarted := true }
+    else if startsWith kwTimestamps line then
+      if st.dataStarted then .error .parse
+      else if toks.length ≠ 2 then .error .parse
+      else match parseBoolTok (toks.getD 1 []) with
+        | some b => .ok { st with timestamps := b, hasTS := true, metaStarted := true }
+        | none => .error .parse
+    else if startsWith kwUnivariate line then
+      if st.dataStarted then .error .parse
+      else if toks.length ≠ 2 then .error .parse
+      else match parseBoolTok (toks.getD 1 []) with
+        | some _ => .ok { st with hasUni := true, metaStarted := true }
+        | none => .error .parse
+    else if startsWith kwClassLabel line then
+      if st.dataStarted then .error .parse
+      else if toks.length = 1 then .error .parse
+      else match parseBoolTok (toks.getD 1 []) with
+        | some b =>
+          if toks.length = 2 ∧ b then .error .parse
+          else .ok { st with classLabels := b, hasCL := true, metaStarted := true }
+        | none => .error .parse
+    else if startsWith kwData line then
+      if line ≠ kwData then .error .parse
+      else if st.dataStarted ∧ !st.metaStarted then .error .parse
+      else .ok { st with hasData := true, dataStarted := true }
+    else if st.dataStarted then dataLine st line
+    else .ok st
 
 /-- the line loop over normalised lines -/
 def run : St → List Str → Except Err St
@@ -223,9 +226,10 @@ def run : St → List Str → Except Err St
     | .ok st' => run st' ls
     | .error e => .error e
 
-/-- after the loop: completeness checks and frame construction -/
-def finish (st : St) : Except Err Panel :=
-  if st.lineNum = 0 then .error .parse
+/-- after the loop: completeness checks and frame construction; `nLines` = `line_num`, the number of
+lines the loop has read -/
+def finish (nLines : Nat) (st : St) : Except Err Panel :=
+  if nLines = 0 then .error .parse
   else if st.metaStarted ∧ !(st.hasPN && st.hasTS && st.hasUni && st.hasCL && st.hasData) then .error .parse
   else if st.metaStarted ∧ !st.dataStarted then .error .parse
   else if st.metaStarted ∧ st.dataStarted ∧ st.inst.length = 0 then .error .parse
@@ -238,8 +242,9 @@ def normLine (l : Str) : Str := lower (strip l)
 
 /-- `load_from_tsfile_to_dataframe(path)` on the file's text -/
 def parseTs (text : Str) : Except Err Panel :=
-  match run {} ((lines text).map normLine) with
-  | .ok st => finish st
+  let ls := lines text
+  match run {} (ls.map normLine) with
+  | .ok st => finish ls.length st
   | .error e => .error e
 
 /-! ### `write_dataframe_to_tsfile` -/
@@ -307,9 +312,6 @@ def splitOnStrAux (sep : Str) : Nat → Str → Str → List Str
     else splitOnStrAux sep 0 (c :: cur) cs
 
 def splitOnStr (sep : Str) (s : Str) : List Str := splitOnStrAux sep 0 [] s
-
-def floats (toks : List Str) : Except Err Series :=
-  toks.mapM (fun t => match floatOf t with | some v => .ok v | none => .error .value)
 
 structure ArffSt where
   started : Bool := false
